@@ -176,6 +176,20 @@ def obligations(tier, seed):
                       inputs=[(c1, 'a'), (c2, 'b')], body=body,
                       contract='forall a:%s (whole range), b:%s bounded: (%s_pt(a) - %s_pt(b)) in 1/%d K is the exact displacement (computed in the common rep %s)' % (c1, c2, s1, t1, FINE, cc),
                       functions_under_contract=('au::operator-(QuantityPoint<U1,R1>, QuantityPoint<U2,R2>)',)))
+    # ---- floating reps: a NaN position is unordered (every ordering comparison false, != true), mixed units and same unit
+    for (s1, t1, rep) in (('C', 'K', 'f64'), ('F', 'F', 'f32'), ('K', 'mK', 'f32')):
+        ct = G.ctype(rep)
+        tag = '%s_%s_%s' % (s1, t1, rep)
+        p1 = 'au::make_quantity_point<%s>(a)' % PT[s1]['ty']; p2 = 'au::make_quantity_point<%s>(b)' % PT[t1]['ty']
+        ops = [('eq', '=='), ('ne', '!='), ('lt', '<'), ('le', '<='), ('gt', '>'), ('ge', '>=')]
+        ws = [Wrapper('w_pnan%s_%s' % (n, tag), 'bool', [(ct, 'a'), (ct, 'b')], 'return %s %s %s;' % (p1, op, p2)) for n, op in ops]
+        body = '''
+  ASSUME(VF_ISNAN(a) || VF_ISNAN(b));
+  CHECK(!%s(a, b) && %s(a, b) && !%s(a, b) && !%s(a, b) && !%s(a, b) && !%s(a, b), "a-NaN-position-is-unordered");
+''' % tuple(w.name for w in ws)
+        obs.append(Ob(id='C09.cmp-nan.%s' % tag, prop='C09', group='C09.nan.%s' % tag, prelude=prelude(s1, t1), wrappers=ws, inputs=[(ct, 'a'), (ct, 'b')], body=body, fp=True,
+                      contract='floating reps: if either position is NaN then ==, <, <=, >, >= are false and != is true (%s_pt vs %s_pt, %s)' % (s1, t1, ct),
+                      functions_under_contract=('au::operator==..>=(QuantityPoint, QuantityPoint) (floating)',)))
     # ---- the letter of the property at one call site (known finding KF-C09-1)
     ct = 'int32_t'
     w = Wrapper('w_pt_letter_F_mK_i32', ct, [(ct, 'x')], 'return au::make_quantity_point<au::Fahrenheit>(x).coerce_in(au::Milli<au::Kelvins>{});')
